@@ -200,6 +200,11 @@ def main(tier: str, replay: str | None) -> None:
     # the model does not distinguish the two, so the prediction is the same
     jobs += [(o + "+bcast3rd", dict(sc, third_dst="bcast"), pa, pf) for (o, sc, pa, pf) in list(jobs) if sc.get("third", -1) >= 0]
 
+    # another pair's handshake on the air at the same time (its accept and confirm, addressed to neither device under
+    # test, heard by both gateways at 5 .. 75 ms): unrelated binding traffic, the prediction does not change
+    for n, (o, sc, pa, pf) in enumerate(list(jobs)):
+        if n % 3 == 1:
+            jobs.append((o + "+foreignpair", dict(sc, foreign=[5 + 10 * ((n // 3 + k) % 8) for k in range(3)]), pa, pf))
     # the retry follows the first round closely (0 / 50 ms / 2 s after the attempts ended) instead of after every
     # state timer has fired: "afterwards ... a new attempt can start" does not say "after a pause"
     base_jobs = list(jobs)
